@@ -373,7 +373,7 @@ def oracle(c, problems, stats):
                 if okn:
                     stats["equal_size_float_neighbour"] += 1
                     continue
-            bad(f"mapping a tie-free sample onto an equally sized target with ({em},{im}) does not reproduce the target in the source's rank order: {out.tolist()} vs {want.tolist()}",
+            bad(f"mapping a tie-free sample onto an equally sized target with ({em},{im}) does not reproduce the target in the source's rank order: {out.tolist()} (with extrapolation {outx.tolist()}) vs {want.tolist()}",
                 {"method": em, "iecdf": im, "law": "equal_sizes"}, function="quantile_map_x_on_y_non_parametically", pair=[em, im])
     # ---- sort_array_like_another_one
     out = quiet(U.sort_array_like_another_one, x, y2)
@@ -452,7 +452,7 @@ def run(tier, res, force_search=False):
     # ---- verdict
     seen = set()
     for desc, case, sig in problems:
-        key = tuple(sorted((k, str(v)) for k, v in sig.items()))
+        key = (sig.get("law", sig.get("method")), sig.get("input_dtype"), sig.get("constant_sample"))  # one replay per law, not per method pair
         if key in seen:
             continue
         seen.add(key)
